@@ -225,3 +225,6 @@ func FileOf(pk *packages.Package, pos token.Pos) *ast.File {
 	}
 	return nil
 }
+
+// IsUse reports whether the identifier is a use (not a definition).
+func (p *Program) IsUse(id *ast.Ident) bool { _, ok := p.m().uses[id]; return ok }
